@@ -84,6 +84,22 @@ CLAIMED = {
              "char8 counts as arithmetic-capable and usize is excluded from bitwise/shift, as the tables have it.",
         technique="Lean 4 proof (kernel-checked complete finite tables) + exhaustive matrix correspondence + typed mutants",
         design="§4 C07"),
+    "C08": dict(
+        text="Lean theorems: the mutability analysis lets a write / address-of escape the mutable-base requirement exactly "
+             "when the reference passes through a pointer (`needs_outer_iff`, `write_rejected_iff`); and the frame property of "
+             "a core calculus of calls with by-value and pointer parameters: in every statically accepted program, for every "
+             "nesting of calls, a function changes among pre-existing cells only its own mutable locals and the targets of "
+             "its pointers (`frame`), hence a call changes a caller's cell only if the caller passed its address "
+             "(`call_changes_only_addressed`). Generated callers print their variables before and after calls to callees "
+             "that write or read through every parameter kind (pointer, value, slice pointer, array view, struct pointer, "
+             "struct view, forwarded pointer, aliasing pointer variable): compared with the Lean interpreter and with the "
+             "static prediction; the rule table (E530, E531-E533, E513) is compared with the compiler. Partial: in the "
+             "calculus arrays/structs are single cells; element/member paths are covered by the interpreter runs only.",
+        note="Trusted: Lean kernel, transcription of needs_outer_mutability (checked by the rule table), the calculus as an "
+             "abstraction of the call semantics (its executable semantics is not itself compared with the compiler; the "
+             "interpreter of C01 is), lli.",
+        technique="Lean 4 proof (frame property by induction on fuel over a call calculus) + before/after correspondence",
+        design="§4 C08"),
     "C09": dict(
         text="Lean theorems: the value the lexer computes for the standard base-2/10/16 numeral of every n < 2^128 is n "
              "(`decimal_roundtrip`, `hex_roundtrip`, `bin_roundtrip`, with the C14 lemmas for every `_` placement and suffix), "
